@@ -39,7 +39,10 @@ CONSTANTS
   K,            \* number of successive dispatches
   Modes,        \* subset of {"disp", "par", "seq"}
   MaxDeps,      \* 0 or 1: dependency lists drawn in Init
-  Barriers      \* BOOLEAN: also draw a barrier position in Init
+  Barriers,     \* BOOLEAN: also draw a barrier position in Init
+  Mut           \* "none", or a deliberate defect for negative controls (bin/selftest):
+                \* "nostatic" plans need not satisfy C01Static; "nojoin" a stage may end while groups still run;
+                \* "tlearly" thread-local systems may start during the last stage
 
 VARIABLES
   layout, acc, deps, eps,   \* the plan (constant after Init)
@@ -99,7 +102,7 @@ DepOK(s, d) == d = 0 \/ (MaxDeps > 0 /\ s \in Placed(LayOf(s)) /\ d \in Placed(L
 Init ==
   /\ layout \in Layouts
   /\ acc \in [Sys -> Access]
-  /\ SideBySideOK(layout, acc) /\ SideBySideOK(InnerLayout, acc)
+  /\ (Mut = "nostatic" \/ (SideBySideOK(layout, acc) /\ SideBySideOK(InnerLayout, acc)))
   \* dependency lists: none, or one system that the plan places before (C02Static)
   /\ \E dx \in [Sys -> 0..NSys] :
         /\ \A s \in Sys : DepOK(s, dx[s])
@@ -107,7 +110,7 @@ Init ==
   \* at most one barrier (C03Static makes the epochs a threshold on the stage)
   /\ \E bs \in (IF Barriers THEN 1..Len(layout) ELSE {Len(layout)}) :
         eps = [s \in Sys |-> IF s \in Placed(layout) /\ PosFun(layout)[s][1] > bs THEN 1 ELSE 0]
-  /\ StaticOK
+  /\ (Mut = "nostatic" \/ StaticOK)
   /\ st = [s \in Sys |-> "idle"] /\ runs = [s \in Sys |-> 0]
   /\ cur = 0 /\ icur = 0 /\ irounds = 0 /\ tlpc = 0 /\ mode = "none" /\ k = 0 /\ result = "none" /\ npan = 0
   /\ world = W0 /\ obs = NoObs /\ w0 = W0
@@ -133,7 +136,8 @@ NextOf(l, c, g) ==
 Startable(s) ==
   \/ /\ cur \in DOMAIN layout /\ \E g \in DOMAIN layout[cur] : NextOf(layout, cur, g) = s
   \/ /\ icur \in DOMAIN InnerLayout /\ \E g \in DOMAIN InnerLayout[icur] : NextOf(InnerLayout, icur, g) = s
-  \/ /\ cur = Len(layout) + 1 /\ mode = "disp" /\ tlpc + 1 \in DOMAIN TLs /\ TLs[tlpc + 1] = s
+  \/ /\ (cur = Len(layout) + 1 \/ (Mut = "tlearly" /\ cur = Len(layout)))
+     /\ mode = "disp" /\ tlpc + 1 \in DOMAIN TLs /\ TLs[tlpc + 1] = s
 
 Limit == IF mode = "seq" THEN 1 ELSE W
 
@@ -167,7 +171,9 @@ PanicIn(s) ==
   /\ st' = [st EXCEPT ![s] = "pan"] /\ npan' = npan + 1
   /\ UNCHANGED <<pvars, runs, cur, icur, irounds, tlpc, mode, k, result, world, obs, w0>>
 
-StageDone(l, c) == \A g \in DOMAIN l[c] : NextOf(l, c, g) = 0 /\ \A p \in DOMAIN l[c][g] : st[l[c][g][p]] # "run"
+StageDone(l, c) ==
+  IF Mut = "nojoin" THEN \E g \in DOMAIN l[c] : NextOf(l, c, g) = 0
+  ELSE \A g \in DOMAIN l[c] : NextOf(l, c, g) = 0 /\ \A p \in DOMAIN l[c][g] : st[l[c][g][p]] # "run"
 
 \* inner for_each returns: next inner stage / next round / inner dispatch over
 InnerEndStage ==
